@@ -99,16 +99,22 @@ def run_api(ctx):
         "virtual time: authority.Cache.now seam and, independently, an ExpiresAt shifter; the answer cache uses the C04 shifter",
     ]
     # ---- the model alone ----------------------------------------------------
-    ctx.tlc("Lease", "MC_LeaseDeleg.tla", "MC_LeaseDeleg_quick.cfg", workers=6, timeout=600, heap="6g", tag="deleg-quick")
-    ctx.tlc("Lease", "MC_LeaseDeleg.tla", "MC_LeaseDeleg_ceil.cfg", workers=6, timeout=600, heap="6g", tag="deleg-ceil")
+    cov = ["-coverage", "1"] if thorough else []
+    runs = [ctx.tlc("Lease", "MC_LeaseDeleg.tla", "MC_LeaseDeleg_quick.cfg", workers=6, timeout=900, heap="6g",
+                    tag="deleg-quick", args=cov),
+            # a small ceiling so the 12 h clamp and its insertion anchoring are explored
+            ctx.tlc("Lease", "MC_LeaseDeleg.tla", "MC_LeaseDeleg_ceil.cfg", workers=6, timeout=900, heap="6g",
+                    tag="deleg-ceil", args=cov)]
     if thorough:
-        r = ctx.tlc("Lease", "MC_LeaseDeleg.tla", "MC_LeaseDeleg_full.cfg", workers=8, timeout=1500, heap="12g",
-                    tag="deleg-full", args=["-coverage", "1"])
-        dead = [a for a in r.zero_coverage() if a in (
-            "ParentWithdraw", "ParentRepoint", "ParentRetime", "SeedFromDelegCache", "AskZone", "SelfReferral",
-            "DescendCached", "ProvisionalInsert", "InsertDeleg", "AnswerFromLeaf", "ServeAnswer", "TickD")]
-        if dead:
-            raise vf.MachineryError("vacuous model check: actions never taken: %s" % dead)
+        # two resolutions in flight; the three-level tree root->p->c->g
+        ctx.tlc("Lease", "MC_LeaseDeleg.tla", "MC_LeaseDeleg_two.cfg", workers=8, timeout=2400, heap="12g", tag="deleg-two")
+        ctx.tlc("Lease", "MC_LeaseDeleg.tla", "MC_LeaseDeleg_full.cfg", workers=8, timeout=2400, heap="12g", tag="deleg-full")
+        never = {"ParentWithdraw", "ParentRepoint", "ParentRetime", "SeedFromDelegCache", "AskZone", "SelfReferral",
+                 "DescendCached", "ProvisionalInsert", "InsertDeleg", "AnswerFromLeaf", "ServeAnswer", "TickD"}
+        for r in runs:
+            never &= set(r.zero_coverage())
+        if never:
+            raise vf.MachineryError("vacuous model check: actions never taken in any configuration: %s" % sorted(never))
     # ---- shifter self-test ----------------------------------------------------
     res = ctx.go_driver("./c08", "TestShifterSelfTest", {}, name="c08_selftest", timeout=600)
     if res.get("skipped"):
